@@ -116,6 +116,8 @@ def build(ctx):
         ctx.add(core.satisfiable('%s/vacuity/some-path-changes-a-state' % name, z3.Or(*n_trans) if n_trans else z3.BoolVal(False)))
     SP.lock_discipline(ctx, ex, [w for w in writers])
     _call_sites(ctx)
+    from contracts import sqlspec as _SP
+    _SP.engine_obligations(ctx, ex)
     ctx.assume('each procedure call is atomic (serialisable isolation); MySQL NULL/boolean semantics as encoded in vc/sqlvc.py')
     ctx.assume("invariant N' (a child of a non-terminal parent is Pending) is a hypothesis of the children statement here; its preservation is C05's obligation")
     ctx.assume('"at most once per job over any history" follows from: the tally statement runs only together with a non-terminal -> terminal transition of that job, and terminal states are absorbing (ranking argument)')
